@@ -62,6 +62,9 @@ func (x *Exec) Compare(op Op, exp Op, o *Observed) []string {
 		if st != 0 && o.Status != st {
 			return false
 		}
+		if code == "!" { // any refusal: a transport-level failure has no prescribed code
+			return o.Status >= 400
+		}
 		if code == "*" || isHead {
 			return true
 		}
